@@ -1594,6 +1594,8 @@ def check_histx(case, v: Verdict):
         for u in case["first"]:
             if case["order"] == "derivative-first":
                 J.derivative(b0 * (1.0 + u) + 0.5, 1, True)
+                J.derivative(b0 * u, 1, True)
+                J.derivative(b0 * u, 2, True)
             if not beyond_ok(b0 * (1.0 + u) + 0.5, b0, "before the extension"):
                 return
         J.extendInterpolationTable(0.0, b1, 0, int((b1 - b0) * k))
@@ -1616,13 +1618,108 @@ def check_histx(case, v: Verdict):
             if not err <= 1e-4 * (1.0 + abs(want)):
                 v.fail("histx-inside", f"{fn}", f"{fn}({x!r}) = {got[0]!r} inside the widened table, integral {want.real!r}", x=float(x))
                 return
+        # first derivative inside the widened table (the tables "reproduce those integrals and their first derivative
+        # over their whole range" for whatever was asked of the object before): measured envelope on the unchanged
+        # tree for spacing 1/4 and 1/8 on x >= 4 (48 configurations): 6.1e-7; bound 2e-5 (1 + |J'|)
+        v.checked("histx-derivative")
+        for u in case["later"]:
+            x = b0 + u * (b1 - b0)
+            got = np.ravel(np.asarray(J.derivative(float(x), 1, True), dtype=float))
+            want = oracle(kind, x, 1)
+            err = abs(got[0] - want.real) if np.isfinite(got[0]) else np.inf
+            v.info["histx_derivative_err"] = max(v.info.get("histx_derivative_err", 0.0), float(min(err, 1e300)))
+            if not err <= 2e-5 * (1.0 + abs(want)):
+                v.fail("histx-derivative", f"{fn} {case['order']}",
+                       f"{fn}.derivative({x!r}) = {got[0]!r} inside the widened table [0, {b1}], derivative of the integral "
+                       f"{want.real!r}", x=float(x))
+                return
+
+
+# ---------------------------------------------------------------------------
+# "every temperature" includes T = 0 exactly (the module guards the division m^2/T^2 for it)
+# ---------------------------------------------------------------------------
+@st.composite
+def st_pot0_case(draw):
+    t0 = 10.0 ** draw(st.floats(-2, 3))
+    tform = draw(st.sampled_from(["float", "int", "0d", "array", "int-array"]))
+    if tform in ("array", "int-array"):
+        n = draw(st.integers(2, 4))
+        k0 = draw(st.integers(0, n - 1))
+        temps = [0.0 if i == k0 else (float(draw(st.integers(1, 300))) if tform == "int-array"
+                                      else t0 * draw(st.floats(0.5, 2.0))) for i in range(n)]
+    else:
+        temps = [0.0]
+    xs = [0.0, 0.0, 1e-6, 0.3, 5.0, 200.0]
+    nb, nf = draw(st.integers(0, 3)), draw(st.integers(0, 3))
+    if nb + nf == 0:
+        nb = 1
+    return {"kind": "pot0", "integrals": draw(st.sampled_from(["direct", "tables"])), "T0": t0, "tform": tform, "T": temps,
+            "xB": [[draw(st.sampled_from(xs)) for _ in range(nb)] for _ in temps],
+            "xF": [[draw(st.sampled_from(xs)) for _ in range(nf)] for _ in temps],
+            "nB": [draw(st.sampled_from([1, 2, 3, 6, 24])) for _ in range(nb)],
+            "nF": [draw(st.sampled_from([1, 4, 12])) for _ in range(nf)]}
+
+
+def check_pot0(case, v: Verdict):
+    from WallGo.PotentialTools import EffectivePotentialNoResum, EImaginaryOption
+
+    class P(EffectivePotentialNoResum):
+        fieldCount = 1
+        effectivePotentialError = 1e-8
+
+        def bosonInformation(self, fields, temperature=None):
+            return None
+
+        def fermionInformation(self, fields, temperature=None):
+            return None
+
+        def evaluate(self, fields, temperature):
+            return 0.0
+
+    pot = P(useDefaultInterpolation=(case["integrals"] == "tables"), imaginaryOption=EImaginaryOption.ERROR)
+    temps = list(case["T"])
+    tform = case["tform"]
+    T = {"float": 0.0, "int": 0, "0d": np.array(0.0)}.get(tform)
+    if T is None:
+        T = np.array(temps, dtype=float) if tform == "array" else np.array([int(t) for t in temps])
+    sc = float(case["T0"]) ** 2
+    mB = np.array(case["xB"], dtype=float).reshape(len(temps), -1) * sc
+    mF = np.array(case["xF"], dtype=float).reshape(len(temps), -1) * sc
+    nB, nF = np.array(case["nB"], dtype=float), np.array(case["nF"], dtype=float)
+    massless = bool(np.any(mB == 0) or np.any(mF == 0))
+    v.label("pot0", f"integrals:{case['integrals']}", f"T:{tform}", "massless-species" if massless else "massive-only")
+    v.nontrivial = massless
+    cls = f"{case['integrals']} T={tform}" + (" massless" if massless else "")
+
+    def call(mb, mf, t):
+        oneb, onef = np.ones(mb.shape[-1]), np.ones(mf.shape[-1])
+        return np.atleast_1d(np.asarray(pot.potentialOneLoopThermal((mb, nB, oneb, oneb), (mf, nF, onef, onef), t), dtype=float))
+
+    got = call(mB, mF, T)
+    v.checked("pot0-zero")
+    if got.shape != (len(temps),):
+        v.fail("pot0-zero", cls + " shape", f"potentialOneLoopThermal returned shape {got.shape} for {len(temps)} temperatures")
+        return
+    for i, t in enumerate(temps):
+        if t == 0.0:
+            if not (np.isfinite(got[i]) and abs(got[i]) <= 1e-250):
+                v.fail("pot0-zero", cls, f"thermal one-loop potential at T = 0 (entry {i} of {temps}) is {got[i]!r}; the free energy "
+                       f"of an ideal gas at zero temperature vanishes (m^2 = {mB[i].tolist()} / {mF[i].tolist()})")
+                return
+        else:
+            v.checked("pot0-row")
+            alone = call(mB[i:i + 1], mF[i:i + 1], float(t))
+            if not abs(got[i] - alone[0]) <= 1e-12 * abs(alone[0]) + 1e-300:
+                v.fail("pot0-row", cls, f"entry {i} (T = {t!r}) of a temperature array containing 0 is {got[i]!r}; evaluated alone "
+                       f"{alone[0]!r}")
+                return
 
 
 def strategy(tier):
     # weights chosen from the measured label histogram (Hypothesis favours the structurally smaller branches)
-    return st.integers(0, 46).flatmap(
+    return st.integers(0, 48).flatmap(
         lambda k: st_point_case() if k < 40 else (st_pot_case() if k < 44 else (
-            st_jcw_case() if k < 45 else (st_hist_case() if k < 46 else st_histx_case()))))
+            st_jcw_case() if k < 45 else (st_hist_case() if k < 46 else (st_histx_case() if k < 48 else st_pot0_case())))))
 
 
 def check_case(case) -> Verdict:
@@ -1643,6 +1740,8 @@ def check_case(case) -> Verdict:
         check_hist(case, v)
     elif kind == "histx":
         check_histx(case, v)
+    elif kind == "pot0":
+        check_pot0(case, v)
     else:
         raise ValueError(kind)
     return v
